@@ -294,3 +294,27 @@ Proof.
   injection E as E. apply (f_equal (@length node)) in E.
   rewrite strip_children_insert_sig_length in E; auto. lia.
 Qed.
+
+(** ---- statements in the form used by props/C12.v ---- *)
+Lemma traversal_full cs (runs : list (effect * list step)) s0 :
+  (forall r, In r runs -> eff_ok cs (fst r) = true /\ realises (fst r) (snd r) = true) ->
+  let s := run (concat (map snd runs)) s0 in
+  strip_pkg cs (st_pkg s) = strip_pkg cs (st_pkg s0)
+  /\ map fst (st_pkg s) = map fst (st_pkg s0)
+  /\ exists new, st_saved s = st_saved s0 ++ new
+       /\ Forall (fun q => strip_pkg cs q = strip_pkg cs (st_pkg s0) /\ map fst q = map fst (st_pkg s0)) new.
+Proof.
+  intros H. destruct (traversal cs runs s0 H) as [[H1 H2] H3]. repeat split; auto.
+Qed.
+
+Lemma save_changes_nothing s : st_pkg (apply_step s Save) = st_pkg s.
+Proof. reflexivity. Qed.
+
+Lemma strip_preserves_meaning cs t a c x :
+  strip cs (Elem t a c x) = Elem t a (map (strip cs) (filter (significant cs) c)) x
+  /\ (forall m, In m c -> significant cs m = true -> In (strip cs m) (children_of (strip cs (Elem t a c x))))
+  /\ (forall m, removable cs (strip cs m) = negb (significant cs m)).
+Proof.
+  split; [apply strip_spec|]. split; [intros; apply strip_keeps_significant; auto|].
+  intros; apply removable_strip.
+Qed.
